@@ -85,10 +85,12 @@ pub fn run(tape: &[u8], cx: &Cx) -> Outcome {
     let mut t = Tape::new(tape);
     // a, b, c, the alphabet's ends, and the code points that a lossy detour through Rust strings
     // would confuse (surrogates are SMT characters but not Unicode scalar values; U+FFFD replaces them)
-    let alpha: [u32; 8] = [0x61, 0x62, 0x63, 0, 0x2FFFF, 0xFFFD, 0xD800, 0xDFFF];
+    // (and characters that agree with 'a' / 'b' on their low 8 or 16 bits: a comparison of truncated
+    // characters finds occurrences that are not there)
+    let alpha: [u32; 11] = [0x61, 0x62, 0x63, 0, 0x2FFFF, 0xFFFD, 0xD800, 0xDFFF, 0x161, 0x10061, 0x10062];
     let gen_str = |t: &mut Tape, max: usize| -> Vec<u32> {
         let n = t.choose(max + 1);
-        (0..n).map(|_| alpha[t.weighted(&[12, 10, 6, 2, 2, 2, 2, 1])]).collect()
+        (0..n).map(|_| alpha[t.weighted(&[12, 10, 6, 2, 2, 2, 2, 1, 2, 3, 2])]).collect()
     };
     let mut s = gen_str(&mut t, 12);
     // an eighth of the cases: a long subject made of a repeated short block with a few perturbations
@@ -212,6 +214,7 @@ pub fn enumerate(thorough: bool, part: usize, parts: usize, sink: &mut EnumSink)
         ),
         (all_strings(&[0x61, 0x62, 0x63], 3), all_strings(&[0x61, 0x62, 0x63], 2), "subject over {a,b,c} of length <= 3, pattern and replacement of length <= 2".to_string()),
         (all_strings(&[0x61, 0xFFFD, 0xD800], 3), all_strings(&[0x61, 0xFFFD, 0xD800], 2), "subject over {a, U+FFFD, 0xD800} of length <= 3, pattern and replacement of length <= 2".to_string()),
+        (all_strings(&[0x61, 0x10061, 0x161], 3), all_strings(&[0x61, 0x10061, 0x161], 2), "subject over {a, 0x10061, 0x161} (equal low 16 / 8 bits) of length <= 3, pattern and replacement of length <= 2".to_string()),
     ];
     for (subjects, others, desc) in &spaces {
         for (idx, s) in subjects.iter().enumerate() {
